@@ -72,7 +72,9 @@ func (p *ProofU) validate(pk *gabikeys.PublicKey) error {
 		return errors.New("incomplete ProofU")
 	}
 	for i, response := range p.MUserResponses {
-		if i < 0 || i >= len(pk.R) || response == nil {
+		// Index 0 belongs to the secret key, whose response is SResponse: a second response for that
+		// base would allow the prover to commit to a different secret than the one it is linked to.
+		if i < 1 || i >= len(pk.R) || response == nil {
 			return errors.New("invalid random blind attribute response in ProofU")
 		}
 	}
